@@ -666,7 +666,12 @@ def evaluate(case):
                 if k in ("update_column", "update_columns", "add_columns"):
                     tn = info["touched"] + info["added"]
                     touched_ids = {c["id"] for c in spec["columns"] if c["name"] in tn}
+                moved_ids = {c["id"] for c in M.components(new_spec) if c["name"] in info["moved"]}
                 if touched_ids & members or not _survives(new_spec, breaker, members):
+                    Dbad = None
+                elif breaker["kind"] == "dtype" and moved_ids & members:
+                    # the container the component moves into may coerce (MultiIndex(coerce=True) coerces every
+                    # level): a wrong physical dtype is not a constraint that has to survive the move
                     Dbad = None
                 else:
                     try:
@@ -939,12 +944,12 @@ def evaluate_component(case):
 
 
 FAMILIES = [
-    Family("pandas_programs", evaluate, strategy=strat_pandas, n_quick=180, n_thorough=3000, shards_quick=6,
+    Family("pandas_programs", evaluate, strategy=strat_pandas, n_quick=180, n_thorough=4000, shards_quick=6,
            shards_thorough=16,
            required_labels=["op=add_columns", "op=remove_columns", "op=select_columns", "op=rename_columns",
                             "op=update_column", "op=update_columns", "op=set_index", "op=reset_index",
                             "index=multi3", "converse-tracked", "state-revisit", "profile=plain"]),
-    Family("polars_programs", evaluate, strategy=strat_polars, n_quick=120, n_thorough=1500, shards_quick=2,
+    Family("polars_programs", evaluate, strategy=strat_polars, n_quick=120, n_thorough=2000, shards_quick=2,
            shards_thorough=8,
            required_labels=["op=add_columns", "op=rename_columns", "op=update_columns", "converse-tracked"]),
     Family("component_update_checks", evaluate_component, strategy=comp_cases, n_quick=150, n_thorough=1500,
